@@ -143,7 +143,14 @@ def Rd.nextFrame (r : Rd) (s : Src) (cx : Ctx)
         let (hdr2, xerr, comp) := if r.ext then unsetBits r.compressed hdr else (hdr, none, r.compressed)
         let r2 := { r1 with compressed := comp }
         match xerr with
-        | some pe => (some hdr2, some (.proto pe), r2, s1, cx)
+        | some pe =>
+          -- r.frame is NOT replaced on this path: a frame still installed (NextFrame called mid-frame) keeps
+          -- its own chain — through the cipher reader or not, through the validator or not; the shared
+          -- cipher reader has been re-keyed only if the refused frame is masked
+          (some hdr2, some (.proto pe),
+            { r with rawN := hdr.len, compressed := comp,
+                     mask := if hdr.masked then hdr.mask else r.mask,
+                     cpos := if hdr.masked then 0 else r.cpos }, s1, cx)
         | none =>
           if r2.fragmented && opIsControl hdr2.op then
             match onInter with
